@@ -122,15 +122,30 @@ ARG_FORMS = ['$1', '${1}', '$@', '$*', '"$@"', '${@:1}', '$2', '${2-w}', '${#2}'
 LEN_CLAUSE_FORMS = ('${#v[@]}', '${#v[0]}')
 
 
+STMT_FORMS = ['(( v ))', '(( v + 1 ))', 'let v+1', '[[ v -eq 0 ]]', 'for ((i=v; i<1; i++)); do :; done', 'a[v]=1',
+              ': ${s:v}', ': ${s:0:v}', ': ${a[v]}', ': $((v[0]))', ': $((v++))', ': $((v=1))', ': $(( 1 ? 2 : v ))', ': $(( 0 && v ))']
+PLACEMENTS = {
+    # the rest of the same line is abandoned by any error, fatal or not: only the other two placements tell them apart
+    "same_line": "set -u; s=abcdef; a=(1 2); %(setup)s; %(stmt)s; echo after",
+    "next_line": "set -u\ns=abcdef; a=(1 2)\n%(setup)s\n%(stmt)s\necho after",
+    "in_func": "set -u\ns=abcdef; a=(1 2)\n%(setup)s\ng() { %(stmt)s; echo inner; }\ng\necho after",
+}
+
+
 def nounset(ctx):
     cases = []
     for st, setup in STATES.items():
-        for f in FORMS:
-            for uflag in (True,):
-                cases.append((st, f, uflag, "%s%s; : %s; echo after" % ("set -u; " if uflag else "", setup, f)))
+        for f in FORMS + STMT_FORMS:
+            stmt = f if f in STMT_FORMS else ": " + f
+            for pn, pl in PLACEMENTS.items():
+                if pn != "next_line" and f not in STMT_FORMS and st not in ("unset", "null", "arr_empty", "decl_only"):
+                    continue
+                cases.append((st + "/" + pn, f, True, pl % {"setup": setup, "stmt": stmt}))
     for f in ARG_FORMS:
         cases.append(("args1", f, True, "set -u; set -- a; : %s; echo after" % f))
+        cases.append(("args1/next_line", f, True, "set -u; set -- a\n: %s\necho after" % f))
         cases.append(("infunc", f, True, "set -u; g() { : %s; echo after; }; g a" % f))
+        cases.append(("infunc/next_line", f, True, "set -u\ng() { : %s; echo inner; }\ng a\necho after" % f))
 
     def one(c):
         # script-file delivery: `bash -c` reports an unbound variable with status 127, a script with 1
@@ -138,16 +153,26 @@ def nounset(ctx):
 
     res = lib.pmap(one, cases)
     for (st, f, uflag, script), (b, o) in zip(cases, res):
-        kb = (b["rc"] != 0, "after" in b["out"])
-        ko = (o["rc"] != 0, "after" in o["out"])
+        kb = (b["rc"] != 0, "after" in b["out"]) + (("inner" in b["out"],) if "echo inner" in script else ())
+        ko = (o["rc"] != 0, "after" in o["out"]) + (("inner" in o["out"],) if "echo inner" in script else ())
         ctx.count(("nounset", st, f, uflag), nontrivial=uflag, bucket="nounset")
         if kb == ko:
             continue
         case = {"script": script, "state": st, "form": f, "brush": [b["rc"], b["out"]], "bash": [o["rc"], o["out"]],
                 "brush_stderr": b["err"][-200:]}
-        if uflag and f in LEN_CLAUSE_FORMS and ko == (True, False) and kb == (False, True):
+        tolerant = kb[0] is False and all(x or not y for x, y in zip(kb[1:], ko[1:]))   # brush goes on at least as far as bash
+        if f in LEN_CLAUSE_FORMS and ko != kb and tolerant:
             ctx.known_or_violation("nounset_array_length_tolerated",
                                    "under `set -u` brush accepts an expansion that bash rejects as unbound", case)
+        elif f == "${#v[0]}" and st.startswith("unset/") and kb[:2] == (True, False) and ko[:2] == (False, True):
+            ctx.known_or_violation("nounset_element_length_of_unset_is_fatal",
+                                   "`${#v[0]}` of an unset variable ends the shell; bash reports the error, abandons the command and goes on", case)
+        elif f == "${!v}" and st.startswith("unset/") and kb[:2] == (True, False) and ko[:2] == (False, True):
+            ctx.known_or_violation("nounset_indirect_of_unset_is_fatal",
+                                   "`${!v}` with v unset ends the shell; bash reports the error, abandons the command and goes on", case)
+        elif f == "let v+1" and tolerant:
+            ctx.known_or_violation("nounset_in_let_tolerated",
+                                   "`let` with an unset variable under `set -u` only fails; bash ends the shell", case)
         else:
             ctx.violation("`set -u`: brush and bash disagree on whether the expansion aborts the shell", case)
     ctx.sample({"nounset_case": cases[0][3]})
